@@ -4,8 +4,14 @@ E  every tree of a structure family (config / menuconfig / choice / menu / if / 
    assignment; help texts with blank, deeper-indented and keyword-led lines; `\\` continuations; `#` comment lines and
    trailing `#` comments) is rendered so that it satisfies the documented format rules, once directly under `mainmenu`
    (entries at 4 spaces) and once as a sourced `Kconfig.body` (entries at 0 spaces); plus canonical sdkconfig.rename
-   files.  Every file is then mangled at every single site and at every pair of sites (alphabet below) and by four
-   global manglings.
+   files.  NAMES AT THE DOCUMENTED LIMITS: Kconfig programs in which every defined name (config / menuconfig / choice /
+   choice member) is exactly 50 and exactly 49 characters long, and programs whose sibling names share a prefix of
+   exactly 3 characters; rename lines whose NEW name (plain and behind `!`) is exactly 50 / 49 characters long without
+   the CONFIG_ prefix, whose OLD name is 50 / 51 characters long, and both at 50.  Every file is then mangled at every
+   single site and at every pair of sites (alphabet below) and by four global manglings.
+   CONTROLS (one over a limit: names of 51 characters, common prefix of 2 characters, NEW rename names of 51 / 57 / 58
+   characters) are not compliant and not whitespace-only defects: no verdict is demanded of them, only that
+   validate_file returns (no exception) and that its return value agrees with the printed verdict.
 O  canonical: validate_file() is True and prints "<path>: OK", with replace=True the bytes are unchanged, without
    replace no `*.new` remains.  mangled (and accepted by parser 1): <= 5 replace passes until OK, the pass that says OK
    is the identity, one more real pass is the identity again, and the fixed point parses under parser 1 and parser 2
@@ -35,7 +41,10 @@ RULE = (
     "blanks) and as a sourced Kconfig.body (entries at 0 blanks); every Kconfig* file of a program is a target. "
     "quick: N=1 in all 6 flavour rotations; N=2 (one rotation/position per forest); all container chains of depth 3 around an "
     "option and of depth 2 around a choice; each spelling of `source` after a help text; 3 dedicated programs ('#' in a quoted "
-    "condition; unnamed choice / menu in an `if` after a single option). thorough: N=1 in all rotations and both positions, N=2 in all rotations (positions alternating), all chains "
+    "condition; unnamed choice / menu in an `if` after a single option); BOUNDARY NAMES: 2 forests (option + menuconfig + named "
+    "choice with 2 members; menu with option + menuconfig + unnamed choice) x both positions x {all defined names exactly 50 "
+    "characters, exactly 49, sibling names with a common prefix of exactly 3 characters, both} (quick: single sites and same-line "
+    "pairs only, D=0; thorough D=1). thorough: N=1 in all rotations and both positions, N=2 in all rotations (positions alternating), all chains "
     "of depth 2 and 3 in both positions, all forests with N=3, and the single-rooted N=4 forests of depth >= 2 (one in eight, "
     "chosen by a stable hash). "
     "MANGLINGS per target: ALL single sites {indent +1..+4, -1..-4, 0, one tab per 4-blank unit, a leading tab, 1 and 2 "
@@ -43,8 +52,13 @@ RULE = (
     "classes; different lines: at most D non-blank lines apart -- quick D=1; thorough D=3 for N=1, D=2 for N=2 and chains, "
     "D=1 for N>=3); the 4 global manglings (all indents doubled / halved / zeroed / as tabs). A mangled file that "
     "Kconfig(parser_version=1) rejects is outside the statement (skipped). RENAME FILES: all sequences of <= 2 (thorough 3) "
-    "line kinds {comment, blank, plain, inverted, trailing comment, lowercase old name, wide separator} with the same site "
+    "line kinds {comment, blank, plain, inverted, trailing comment, lowercase old name, wide separator, NEW name of 50 / 49 "
+    "characters plain and inverted, OLD name of 50 / 51 characters, both names of 50 characters (lengths without CONFIG_)} "
+    "(3 lines: at most one boundary-length kind) with the same site "
     "alphabet plus tab-as-separator, all singles and all pairs; skipped when load_rename_files rejects the mangled file. "
+    "CONTROLS (no verdict demanded; must return, and return value == printed verdict): the boundary forests with names of 51 "
+    "characters / a common prefix of 2 characters; rename files with a NEW name of 51, 57, 58 characters, alone and next to "
+    "compliant lines. "
     "distinct outcome = (program, target, reading of the mangled file same as canonical?, passes needed, fixed-point bytes, "
     "failure classes)."
 )
@@ -59,6 +73,13 @@ ASSUMPTIONS = [
     "kconfcheck output is captured by installing a capturing logger through esp_pylib's public EspLog.set_logger()",
     "a two-site violation whose failure class is already produced by one of its two sites alone is attributed to "
     "that single site and not reported as a new class (counter pair_subsumed_by_single)",
+    "the 50-character limit counts the option name as written in a Kconfig file, i.e. without CONFIG_; in sdkconfig.rename "
+    "files the same limit applies to the NEW name without its CONFIG_ prefix, and OLD names are bound by no length or case "
+    "rule (kconfcheck/core.py: 'old names may not comply with the rules'); a common prefix of exactly 3 characters satisfies "
+    "'at least 3 characters'. The line-length limit is not taken to its boundary (documentation: maximum 120, checker: "
+    "shorter than 120)",
+    "in the boundary-name programs only DEFINED names are stretched; condition symbols that are merely referenced keep the "
+    "short base name (the length rule is about options, and a reference defines none)",
     "option names are referenced before/without definition (APP_*_D / APP_K* condition symbols) so that every node's "
     "conditions identify the blocks it sits in; parser 2 needs `mainmenu`, so mainmenu-less bodies are sourced files",
 ]
@@ -1321,7 +1342,7 @@ def check_control(ctx: Ctx, r: common.Result, labels: List[str], spec: Any, brok
         v = ctx.validate_real(text, replace)
         if v[0] == "exc":
             r.violation(
-                {"kind": "exception", "exc": v[1], "site": v[2], "mode": mode, "mangling": "none", "entry": "control:" + broken},
+                {"kind": "exception", "exc": v[1], "site": v[2], "mangling": "none", "entry": "control:" + broken},
                 f"[{ctx.family} control {broken} {ctx.target}] validate_file({mode}) raised {v[1]} at {v[2]} ({v[3]})",
                 case,
             )
@@ -1331,7 +1352,7 @@ def check_control(ctx: Ctx, r: common.Result, labels: List[str], spec: Any, brok
         r.outcome(("control", ctx.family, broken, mode, ctx.target, text, bool(ok), left, first))
         if bool(ok) != bool(said_ok):
             r.violation(
-                {"kind": "verdict_inconsistent", "mode": mode, "mangling": "none", "entry": "control:" + broken},
+                {"kind": "verdict_inconsistent", "mangling": "none", "entry": "control:" + broken},
                 f"[{ctx.family} control {broken} {ctx.target}] validate_file({mode}) returned {ok} but printed OK: {said_ok}",
                 case,
             )
